@@ -359,7 +359,7 @@ class TypeDef:
 FIELD_NAMES = ["a", "b", "c", "x", "y", "z", "left", "right", "key", "val",
                # names that look like identifiers of the generated code, start with `_`, contain digits, or are long
                "_x", "x1", "_0", "__0", "other", "state", "f", "source", "_s_a", "v_a", "k2",
-               "long_field_name_with_many_characters_0123456789"]
+               "long_field_name_with_many_characters_0123456789", "r#type", "r#fn"]
 VARIANT_NAMES = ["A", "B", "C", "D", "E", "V6", "V7", "V8", "V9", "Va", "Vb", "Vc"]
 
 
@@ -443,7 +443,7 @@ def noise_field_meta(rng, trait, f, shape):
     if trait == "Debug":
         opts = ["Debug(ignore)", "Debug = false", None, None]
         if shape == "named":
-            opts.append("Debug(name = zz_%s)" % f.name)
+            opts.append("Debug(name = zz_%s)" % f.name.replace("r#", ""))
     elif trait == "Hash":
         opts = ["Hash(ignore)", "Hash = false"] + ([None, None] if has else [])
         if f.ty in METHOD_LEAVES:
